@@ -49,7 +49,7 @@ def line(fields):
 
 class C14(Property):
     id = "C14"
-    lean_module = "RosuModel.Props.C14Split"   # imports Props/C14.lean; both files are in namespace Rosu.C14
+    lean_module = "RosuModel.Props.C14Grammar"   # imports Props/C14Split.lean → Props/C14.lean and Lemmas/HoGrammar*.lean; all in namespace Rosu.C14 (the grammar in Rosu.C14.HoSpec)
     namespace = "Rosu.C14"
     design_ref = "5.14"
     required_theorems = ["kind_precedence", "maskedType_bits", "unknown_type_rejected", "bad_header_rejected", "accepted_pushes_one",
@@ -64,15 +64,33 @@ class C14(Property):
                          "isSplit_iff", "duplicate_dropped", "duplicate_types_previous", "no_split_unchanged",
                          "catmull_no_split_after_first", "no_split_at_segment_end", "no_split_beyond_limit", "emitRange_congr",
                          "first_point_origin_typed", "segment_end_point_shared",
-                         "pathLoop_eq", "convertSegments_eq", "convertFrom_eq_run", "convertFrom_empty_fails", "convertPathStr_spec"]
+                         "pathLoop_eq", "convertSegments_eq", "convertFrom_eq_run", "convertFrom_empty_fails", "convertPathStr_spec",
+                         # Props/C14Grammar.lean + Lemmas/HoGrammar*.lean: the declarative reference grammar HoSpec and parser = grammar
+                         "parse_eq_reference", "parseLines_eq_reference", "accepts_iff_reference", "rejects_iff_reference",
+                         "accepted_by_reference", "rejected_by_reference", "leftover_stays_empty", "accepted_line",
+                         "line_combo_offset_needs_new_combo", "line_forced_new_combo", "line_repeat_cap", "line_node_count", "view_push",
+                         "HoSpec.head_eq", "HoSpec.circle_eq_reference", "HoSpec.spinner_eq_reference", "HoSpec.hold_eq_reference",
+                         "HoSpec.sliderPrelude_eq", "HoSpec.slider_eq_reference",
+                         "HoSpec.comboOffsetOf_eq", "HoSpec.maskedType_eq", "HoSpec.classify_masked", "HoSpec.forcedNewCombo_eq",
+                         "HoSpec.sampleField_eq", "HoSpec.samplesOf_eq", "HoSpec.readNodeBanks_eq", "HoSpec.readNodeSounds_eq", "HoSpec.nodeSamples_eq",
+                         "HoSpec.number_eq", "HoSpec.point_eq", "HoSpec.segment_eq", "HoSpec.runSegments_eq", "HoSpec.path_eq",
+                         "HoSpec.head_ok_iff", "HoSpec.circle_ok_iff", "HoSpec.slider_ok_iff", "HoSpec.spinner_ok_iff", "HoSpec.hold_ok_iff",
+                         "HoSpec.body_ok_cases", "HoSpec.specLine_ok_iff", "HoSpec.body_common", "HoSpec.body_combo_offset", "HoSpec.body_new_combo",
+                         "HoSpec.body_forced_new_combo", "HoSpec.samplesOf_layered", "HoSpec.samplesOf_not_layered", "HoSpec.nodeSamples_defaults",
+                         "HoSpec.nodeSamples_length", "HoSpec.slider_repeat_cap", "HoSpec.lengthField_absent", "HoSpec.lengthField_present",
+                         "HoSpec.coordinate_truncated", "HoSpec.head_error_cases", "HoSpec.head_tooFewFields", "HoSpec.body_noKind",
+                         "HoSpec.circle_error_cases", "HoSpec.slider_error_cases", "HoSpec.spinner_error_cases", "HoSpec.hold_error_cases",
+                         "HoSpec.specLine_error_cases", "rejected_line_reasons"]
     partial_theorems = {
-        "path splitting": "proved in closed form: convertPathStr_spec (the path string is cut before every piece that starts with an ASCII letter, each segment is handed the "
-            "piece after the next type piece as its end point, an empty piece fails, failure clears curve_points) and, per segment, splitLoop_spec / convertPoints_spec "
-            "(the control points appended are the vertices below len − end_point_len whose index is not a split index, typed iff the next index is one), with the clauses "
-            "first_point_origin_typed, duplicate_dropped / duplicate_types_previous, catmull_no_split_after_first, no_split_at_segment_end, segment_end_point_shared. "
-            "convertPoints_spec assumes the segment has a vertex of its own (first segment, or at least one point after the type letter); a later segment consisting of a type "
-            "letter only can only be reached after its predecessor failed to read that letter as its end point, which holds for Rust's float grammar but is not provable for an "
-            "abstract Scalar.parse, so the two statements are not composed into one formula for the whole string",
+        "reference grammar": "proved, not partial: parse_eq_reference — for every game mode, decoder state, line and Scalar instance (no arithmetic law, number "
+            "parser abstract) the model of parse_hit_objects returns the verdict, the object and the state change of the declarative grammar HoSpec.specLine / HoSpec.step "
+            "(Lemmas/HoGrammarSpec.lean: indexed comma fields, per-field meaning functions, 16 named rejection reasons). The state is compared without the scratch buffer "
+            "`vertices` (no line reads it). The grammar re-uses the declarative path pieces of Props/C14Split.lean (cutSegments, isSplit/emitRange/typeFirst), the type-letter "
+            "table PathType.newFromStr, effectivePathType and the constructor HitSampleInfo.new; everything else (fields, numbers, type bits, sample field, sample list, node "
+            "lists, points, segments) is restated and proved equal. What is NOT shown: that HoSpec is the grammar of osu! itself — it was written from the property text, the "
+            "format rules and lib/refho.py and then had to agree with the code; the points where the rule text and the code part ways are listed in DESIGN.md 5.14",
+        "path splitting": "closed: HoSpec.segment_eq covers every convert_points call (including a later segment that is a type piece only, which contributes its handed-over "
+            "point) and HoSpec.path_eq composes convertPathStr_spec with it into one formula for the whole path string (HoSpec.path)",
         "max_zero_nonneg / durations": "proved from three order facts about `<` (irreflexive, asymmetric, false on NaN) taken as hypotheses; the hold duration "
             "`max(start,end) - start ≥ 0` additionally needs field laws and is only exercised",
     }
@@ -83,9 +101,11 @@ class C14(Property):
                   "max(end-start,0), position = truncated f32 parse, perfect-curve downgrade rules, hit-sound byte → sample list, bank field semantics; the duplicate-splitting loop of "
                   "convert_points in closed form (Props/C14Split.lean: split indices = repeated vertex, not Catmull beyond index 1, not the segment's last vertex; the repeated "
                   "vertex is dropped and its predecessor typed — so a run of k equal points keeps one; first point of a path = origin with the effective type; the handed-over "
-                  "end point enters the perfect-curve test only). Tied to the code by a "
+                  "end point enters the perfect-curve test only); and the grammar-level theorem parse_eq_reference (Props/C14Grammar.lean): the parser computes the "
+                  "declarative reference grammar HoSpec on every line in every state, with the property's clauses (combo offset only with new combo, forced new combo, layered normal "
+                  "sample, node defaults, repeat cap, the 16 rejection reasons) as corollaries of the grammar. Tied to the code by a "
                   "field-wise differential through the public parse_hit_objects (all 256 type bytes, all 256 sound bytes, extras/path/edge shapes, sequences), and judged "
-                  "by an independent reference parser written from the legacy grammar (lib/refho.py).")
+                  "by an independent reference parser written from the legacy grammar (lib/refho.py), which remains the oracle for the IMPLEMENTATION (the Lean grammar speaks about the model).")
     technique = "Lean 4 proof (decision-logic theorems over the hit-object line parser model) + field-wise differential correspondence"
     trusted_base = [
         "Lean 4.33.0 kernel; axioms ⊆ {propext, Classical.choice, Quot.sound} per #print axioms",
